@@ -47,7 +47,9 @@ func (t *Dense) T(axes ...int) (err error) {
 
 	// swap out the old and the new
 	t.old = t.AP
-	t.transposeWith = axes
+	// keep a private (pooled) copy: the axes may be the caller's slice, and UT()/ReturnTensor() zero and recycle it
+	t.transposeWith = BorrowInts(len(axes))
+	copy(t.transposeWith, axes)
 	t.AP = transform
 	return nil
 }
@@ -87,7 +89,8 @@ func (t *Dense) SafeT(axes ...int) (retVal *Dense, err error) {
 	retVal.oe = t.oe
 	retVal.AP = transform
 	t.AP.CloneTo(&retVal.old)
-	retVal.transposeWith = axes
+	retVal.transposeWith = BorrowInts(len(axes))
+	copy(retVal.transposeWith, axes)
 
 	return
 }
